@@ -244,62 +244,70 @@ func runC12(c *Ctx) {
 		if len(p.Ext) > 0 {
 			combo["ext"] = p.Ext
 		}
-		inv := map[string]any{
-			"$schema":    "https://gobl.org/draft-0/bill/invoice",
-			"$regime":    p.Regime,
-			"code":       "T-1",
-			"issue_date": issue,
-			"currency":   reg.Currency,
-			"supplier":   map[string]any{"name": "Supplier", "tax_id": map[string]any{"country": p.Regime}},
-			"customer":   map[string]any{"name": "Customer"},
-			"lines": []any{map[string]any{"quantity": "1", "item": map[string]any{"name": "thing", "price": "100.00"},
-				"taxes": []any{combo}}},
+		docTypes := []string{"bill/invoice"}
+		if p.ValueDateMode == "issue" || p.ValueDateMode == "value-before-issue" || p.ValueDateMode == "value-only" {
+			docTypes = append(docTypes, "bill/order", "bill/delivery")
 		}
-		if value != "" {
-			inv["value_date"] = value
-		}
-		if issue == "" {
-			delete(inv, "issue_date")
-		}
-		if op != "" {
-			inv["op_date"] = op
-		}
-		docJSON, _ := json.Marshal(inv)
-		var out []byte
-		var cerr error
-		pan, _ := Safely(func() {
-			env, err := gx.EnvelopDoc(docJSON)
-			cerr = err
-			if err == nil {
-				out, cerr = json.Marshal(env)
+		var gp, gs string
+		for _, docType := range docTypes {
+			inv := map[string]any{
+				"$schema":    "https://gobl.org/draft-0/" + docType,
+				"$regime":    p.Regime,
+				"code":       "T-1",
+				"issue_date": issue,
+				"currency":   reg.Currency,
+				"supplier":   map[string]any{"name": "Supplier", "tax_id": map[string]any{"country": p.Regime}},
+				"customer":   map[string]any{"name": "Customer"},
+				"lines": []any{map[string]any{"quantity": "1", "item": map[string]any{"name": "thing", "price": "100.00"},
+					"taxes": []any{combo}}},
 			}
-		})
-		if pan != nil {
-			c.R.Count("invoice_path_panics", 1)
-			c.R.Case(false, 0)
-			return
-		}
-		c.R.Count("path_invoice", 1)
-		gp, gs := "", ""
-		if cerr == nil {
-			var e struct {
-				Doc struct {
-					Lines []struct {
-						Taxes []struct {
-							Percent   string `json:"percent"`
-							Surcharge string `json:"surcharge"`
-						} `json:"taxes"`
-					} `json:"lines"`
-				} `json:"doc"`
+			if value != "" {
+				inv["value_date"] = value
 			}
-			if json.Unmarshal(out, &e) == nil && len(e.Doc.Lines) == 1 && len(e.Doc.Lines[0].Taxes) == 1 {
-				gp, gs = e.Doc.Lines[0].Taxes[0].Percent, e.Doc.Lines[0].Taxes[0].Surcharge
+			if issue == "" {
+				delete(inv, "issue_date")
 			}
-		}
-		if (cerr != nil) != wantErr || (cerr == nil && (!pctEq(gp, wantPct) || !pctEq(gs, wantSur))) {
-			c.R.Fail(fmt.Sprintf("%s:%s:%s:%s:invoice:%s", cls, p.Regime, p.Cat, p.Rate, p.ValueDateMode),
-				fmt.Sprintf("invoice %s issue=%s value=%s line tax %s/%s ext %v got percent=%q surcharge=%q err=%v; table value in force on the tax date is %q/%q (error expected=%v)", p.Regime, issue, value, p.Cat, p.Rate, p.Ext, gp, gs, cerr, wantPct, wantSur, wantErr),
-				map[string]any{"point": p, "doc": json.RawMessage(docJSON)})
+			if op != "" {
+				inv["op_date"] = op
+			}
+			docJSON, _ := json.Marshal(inv)
+			var out []byte
+			var cerr error
+			pan, _ := Safely(func() {
+				env, err := gx.EnvelopDoc(docJSON)
+				cerr = err
+				if err == nil {
+					out, cerr = json.Marshal(env)
+				}
+			})
+			if pan != nil {
+				c.R.Count("invoice_path_panics", 1)
+				c.R.Case(false, 0)
+				return
+			}
+			c.R.Count("path_invoice", 1)
+			c.R.Count("path_document:"+docType, 1)
+			gp, gs = "", ""
+			if cerr == nil {
+				var e struct {
+					Doc struct {
+						Lines []struct {
+							Taxes []struct {
+								Percent   string `json:"percent"`
+								Surcharge string `json:"surcharge"`
+							} `json:"taxes"`
+						} `json:"lines"`
+					} `json:"doc"`
+				}
+				if json.Unmarshal(out, &e) == nil && len(e.Doc.Lines) == 1 && len(e.Doc.Lines[0].Taxes) == 1 {
+					gp, gs = e.Doc.Lines[0].Taxes[0].Percent, e.Doc.Lines[0].Taxes[0].Surcharge
+				}
+			}
+			if (cerr != nil) != wantErr || (cerr == nil && (!pctEq(gp, wantPct) || !pctEq(gs, wantSur))) {
+				c.R.Fail(fmt.Sprintf("%s:%s:%s:%s:invoice:%s", cls, p.Regime, p.Cat, p.Rate, p.ValueDateMode)+strings.TrimPrefix(strings.TrimPrefix(":"+docType, ":bill/invoice"), ""),
+					fmt.Sprintf("document %s issue=%s value=%s line tax %s/%s ext %v got percent=%q surcharge=%q err=%v; table value in force on the tax date is %q/%q (error expected=%v)", p.Regime, issue, value, p.Cat, p.Rate, p.Ext, gp, gs, cerr, wantPct, wantSur, wantErr),
+					map[string]any{"point": p, "doc": json.RawMessage(docJSON)})
+			}
 		}
 		if wantErr {
 			c.R.Count("before_first_value_points", 1)
